@@ -26,6 +26,9 @@ HONEST STATEMENT OF THE APPROXIMATION.  This is a *text-level* reading of Rust: 
   * closure bodies are read as executed where they are written (true for every closure handed
     to the txhashset:: wrappers and iterator adaptors); a closure that is *stored* (`let f =
     |..|`, `Box::new(move |..|)`) must not acquire anything, else the generator dies;
+  * `self.store.<method>(…)` other than `batch()` / `clone()` is recorded as `!dbread` (a lock-free
+    LMDB read through a read transaction of its own); used for the view classification
+    (`GV.Conc.views`): how many separate snapshots of the chain state an op combines;
   * branches and loop bodies are emitted once, one after the other.  Because guards are
     lexically scoped, the set of guards held at an acquisition site is the same in the
     emitted sequence as in any real execution reaching that site (early `return`/`?` only
@@ -437,6 +440,13 @@ class Translator:
                         i += 6; continue
                     if (impl, a) in STORE_FIELDS and b in LOCK_METHODS:
                         self.die(f"line {t.line}: self.{a}.{b}(…) not understood")
+                    if (impl, a) in STORE_FIELDS and b != "clone":
+                        # a read of LMDB through the store handle: a read transaction of its own (one
+                        # snapshot); whether it falls inside a lock region is decided on the Lean side
+                        self.walk(args.items, ctx)
+                        self.emit(ctx, ("mark", "dbread", t.line))
+                        self.recognised["dbread"] = self.recognised.get("dbread", 0) + 1
+                        i += 6; continue
                     if (impl, a) in CALLBACK_FIELDS:
                         self.walk(args.items, ctx)
                         self.emit(ctx, ("mark", "callback", t.line))
